@@ -34,18 +34,50 @@ func CanonMsg(m *jt808.JTMessage) string {
 		h.TerminalPhoneNo, h.SerialNumber, h.SubPackageSum, h.SubPackageNo, Hx(m.Body), m.VerifyCode)
 }
 
-// FrameDecode: jt808 Decode with a fresh JTMessage on an exact-capacity copy, panics reported.
-func FrameDecode(data []byte) (ans string) {
+// FrameProblem is a violation noticed inside an op, next to its ordinary answer: the commands' direct
+// oracles collect them with DrainFrameProblems.
+type FrameProblem struct{ Kind, What, Input, Observed, Required string }
+
+var frameProblems []FrameProblem
+
+func DrainFrameProblems(c *Ctx, prop string) {
+	for _, p := range frameProblems {
+		c.Violate(Violation{Signature: prop + "/" + p.Kind, What: p.What, Input: p.Input, Observed: p.Observed, Required: p.Required})
+	}
+	frameProblems = nil
+}
+
+func frameDecodeInto(m *jt808.JTMessage, data []byte) (ans string) {
 	defer func() {
 		if r := recover(); r != nil {
 			ans = "panic"
 		}
 	}()
-	m := jt808.NewJTMessage()
 	if err := m.Decode(Exact(data)); err != nil {
 		return ProtoErrCode(err)
 	}
 	return CanonMsg(m)
+}
+
+var (
+	reusedMsg     = jt808.NewJTMessage() // ONE JTMessage that decodes every case after the fresh one did
+	reusedPrevReq string
+)
+
+// FrameDecode: jt808 Decode with a fresh JTMessage on an exact-capacity copy, panics reported.  The same
+// bytes are then decoded by one JTMessage that is reused for every case of the run: its result must be
+// the fresh one (a decoded frame may not depend on what the receiver decoded before).
+func FrameDecode(data []byte) (ans string) {
+	ans = frameDecodeInto(jt808.NewJTMessage(), data)
+	again := frameDecodeInto(reusedMsg, data)
+	if again != ans && len(frameProblems) < 50 {
+		frameProblems = append(frameProblems, FrameProblem{Kind: "reused-receiver",
+			What:     "the same frame decodes differently on a JTMessage that decoded other frames before",
+			Input:    "decodeseq " + reusedPrevReq + " " + Hx(data),
+			Observed: again, Required: ans})
+	}
+	reusedPrevReq = Hx(data)
+	return ans
 }
 
 // FrameEncode: decode src with the real decoder, then Header.Encode(body) with ReplyID/PlatformSerialNumber.
@@ -61,8 +93,26 @@ func FrameEncode(src []byte, rid, ps uint16, body []byte) (ans string) {
 	}
 	m.Header.ReplyID = rid
 	m.Header.PlatformSerialNumber = ps
-	return Hx(m.Header.Encode(Exact(body)))
+	out := m.Header.Encode(Exact(body))
+	// a frame handed out earlier must not change when a later one is built (the writer keeps frames:
+	// PlatformData of the reply event, the resend record): re-read the previous frame, uncopied
+	if heldFrame != nil {
+		if now := Hx(heldFrame); now != heldHex && len(frameProblems) < 50 {
+			frameProblems = append(frameProblems, FrameProblem{Kind: "frame-overwritten",
+				What:     "the bytes returned by an earlier Header.Encode changed when a later frame was encoded",
+				Input:    "encodeseq" + heldReq + " " + Hx(src) + fmt.Sprintf(" %d %d ", rid, ps) + Hx(body),
+				Observed: now, Required: heldHex})
+		}
+	}
+	heldFrame, heldHex = out, Hx(out)
+	heldReq = " " + Hx(src) + fmt.Sprintf(" %d %d ", rid, ps) + Hx(body)
+	return heldHex
 }
+
+var (
+	heldFrame       []byte
+	heldHex, heldReq string
+)
 
 func atoi(s string) int {
 	n, err := strconv.Atoi(s)
@@ -75,6 +125,32 @@ func atoi(s string) int {
 func init() {
 	// decode <frame-hex>
 	RegisterOp("decode", func(a []string) string { return FrameDecode(Unhx(a[0])) })
+	// decodeseq <frame-hex> ... : all frames on ONE JTMessage, answer = the last decode (replay of reused-receiver)
+	RegisterOp("decodeseq", func(a []string) string {
+		m := jt808.NewJTMessage()
+		ans := "none"
+		for _, x := range a {
+			ans = frameDecodeInto(m, Unhx(x))
+		}
+		return ans
+	})
+	// encodeseq (<source-frame-hex> <reply-id> <platform-serial> <body-hex>)+ : encode them in order keeping every
+	// returned slice uncopied; answer = the bytes of the FIRST frame as they are after the last Encode
+	RegisterOp("encodeseq", func(a []string) string {
+		var first []byte
+		for i := 0; i+3 < len(a); i += 4 {
+			m := jt808.NewJTMessage()
+			if err := m.Decode(Exact(Unhx(a[i]))); err != nil {
+				return "src" + ProtoErrCode(err)
+			}
+			m.Header.ReplyID, m.Header.PlatformSerialNumber = uint16(atoi(a[i+1])), uint16(atoi(a[i+2]))
+			out := m.Header.Encode(Exact(Unhx(a[i+3])))
+			if first == nil {
+				first = out
+			}
+		}
+		return Hx(first)
+	})
 	// encode <source-frame-hex> <reply-id> <platform-serial> <body-hex>
 	RegisterOp("encode", func(a []string) string {
 		return FrameEncode(Unhx(a[0]), uint16(atoi(a[1])), uint16(atoi(a[2])), Unhx(a[3]))
